@@ -150,7 +150,7 @@ class BindSim:
             handles = n_ds
             for _ in range(rng.randint(3, 12)):
                 kind = rng.choice(['register', 'detect', 'detect', 'access', 'access', 'access', 'construct_bind', 'bind_again',
-                                   'copy', 'copy', 'derive', 'mutate', 'access_fresh'])
+                                   'copy', 'copy', 'derive', 'mutate', 'access_fresh', 'construct_args'])
                 op = {'op': kind}
                 if kind == 'register':
                     op['cls'] = rng.choice(['syn0', 'syn1', 'syn2', 'syn3', 'syn0', 'builtin:' + rng.choice(entries)])
@@ -158,6 +158,8 @@ class BindSim:
                     op['ds'] = rng.randrange(handles)
                 if kind == 'construct_bind':
                     op['cls'] = rng.choice(['detected', 'detected', 'syn0', 'syn1', 'builtin:CFGrid1D'])
+                if kind == 'construct_args':
+                    handles += 1
                 if kind == 'copy':
                     op['how'] = rng.choice(COPY_HOWS)
                     handles += 1
@@ -178,7 +180,7 @@ class BindSim:
                 yield p
         for li, lt in enumerate(plan['lifetimes']):
             for k in reversed(range(len(lt['ops']))):
-                if lt['ops'][k]['op'] in ('copy', 'derive'):
+                if lt['ops'][k]['op'] in ('copy', 'derive', 'construct_args'):
                     continue  # would renumber handles
                 p = copy.deepcopy(plan)
                 del p['lifetimes'][li]['ops'][k]
@@ -581,6 +583,39 @@ def _bind_lifetime(ctx, dataset_descs, lt):
                         bound[h] = conv
                         if ds.ems is not conv:
                             fail('access-identity', f'dataset #{h}: .ems is not the manually bound convention')
+            elif kind == 'construct_args':
+                # a convention constructed by hand WITH arguments (custom coordinate names) on a renamed copy:
+                # whatever it does must stay with that one instance
+                from emsarray.conventions.grid import CFGrid2D as _CF2
+                from emsarray.conventions.shoc import ShocStandard as _SS
+                desc = dataset_descs[h] if h < len(dataset_descs) else None
+                new = None
+                if desc and desc['world'] and desc['world']['conv'] == 'shoc_standard' and not desc['mut'] and not mutated.get(h):
+                    ren = {'x_centre': 'xc', 'y_centre': 'yc', 'x_left': 'xl', 'y_left': 'yl', 'x_back': 'xb', 'y_back': 'yb', 'x_grid': 'xg', 'y_grid': 'yg'}
+                    new = ds.rename(ren)
+                    conv = _SS(new, coordinate_names={'face': ('yc', 'xc'), 'left': ('yl', 'xl'), 'back': ('yb', 'xb'), 'node': ('yg', 'xg')})
+                    conv.bind()
+                    probe('convention_constructed_with_arguments')
+                elif desc and desc['world'] and desc['world']['conv'] in ('cf2d', 'shoc_simple') and not desc['mut']:
+                    w_ = desc['world']
+                    new = ds.copy()
+                    conv = _CF2(new, latitude=w_['yvar'], longitude=w_['xvar'])
+                    conv.bind()
+                    probe('convention_constructed_with_arguments')
+                nh = len(datasets)
+                dataset_descs = list(dataset_descs)
+                if new is not None:
+                    datasets.append(new)
+                    dataset_descs.append({'world': None, 'mut': None, 'markers': {}})
+                    mutated[nh] = 1   # not rebuildable from a description
+                    bound[nh] = conv
+                else:
+                    datasets.append(ds.copy())
+                    if h < len(dataset_descs):
+                        dataset_descs.append(dataset_descs[h])
+                        mutated[nh] = mutated.get(h, 0)
+                    else:
+                        dataset_descs.append({'world': None, 'mut': None, 'markers': {}})
             elif kind == 'bind_again':
                 was = bound.get(h)
                 if was is None:
